@@ -406,6 +406,11 @@ def run(ctx):
 
     # ------------------------------------------------------------------ (5) exit status
     joins = [bb for bb, t in main.calls() if callee_name(t["fn"].get("path", "")) == "join"]
+    # `threads.into_iter().for_each(|t| t.join().expect(..))`: the joins happen in the closure, once per element
+    joins_each = [bb for bb, t in main.calls() if callee_name(t["fn"].get("path", "")) in ("for_each", "try_for_each") and
+                  any(c_ in P.fns and any(callee_name(t2["fn"].get("path", "")) == "join" and "JoinHandle" in t2["fn"].get("path", "") for _b2, t2 in P.fns[c_].calls())
+                      for c_ in (t.get("closures") or []))]
+    joins = joins + joins_each
     exits = [(bb, mev.call_args(bb)[0]) for bb, t in main.calls() if strip_generics(t["fn"].get("path", "")).endswith("process::exit")]
     after = [(bb, a) for bb, a in exits if spawns and any(main.reaches(s, bb) for s in spawns)]
     ok5 = len(after) == 1 and after[0][1] == ("int", 0) and bool(joins) and all(main.reaches(j, after[0][0]) for j in joins)
@@ -418,5 +423,5 @@ def run(ctx):
               and any(s != bb and main.reaches(s, bb) for s in spawns)]
     # handles produced by an iterator chain are collected into the vector directly
     collected = [s_ for s_ in spawns if callee_name(main.blocks[s_].term["fn"].get("path", "")) in ("map", "collect", "extend", "for_each")]
-    ctx.check("exit-status", "all-threads-joined", len(pushes) + len(collected) >= len(spawns) and bool(joins) and all(main.in_loop(j) for j in joins), "every spawned thread's handle is collected and joined",
+    ctx.check("exit-status", "all-threads-joined", len(pushes) + len(collected) >= len(spawns) and bool(joins) and all(main.in_loop(j) or j in joins_each for j in joins), "every spawned thread's handle is collected and joined",
               "not every spawned thread is joined before exit", ctx.loc(main))
